@@ -177,7 +177,7 @@ pub fn grid(k: u64, tags: &[&str]) -> Vec<Version> {
     out
 }
 
-pub const GRID_TAGS: [&str; 5] = ["", "0", "a", "a.0", "b"];
+pub const GRID_TAGS: [&str; 6] = ["", "0", "0.a", "a", "a.0", "b"];
 
 /// CP1 critical points of a set of bound versions (DESIGN 2.2, T1/T2).
 pub fn critical_points(bounds: &[Version]) -> Vec<Version> {
